@@ -7,14 +7,16 @@ MODULE = "StorageModel.Properties.C19"
 THEOREMS = ["objectz_paging_facts_expected", "boltz_paging_facts_expected", "objectz_filter_exact", "objectz_exact",
             "objectz_eq_bolt", "objectz_order_independent", "pinned_isnil_violates",
             "objectz_eq_bolt_any_filter", "objectz_needs_id", "objectz_nil_iterator_empty", "set_function_on_non_set_rejected",
-            "objectz_float_comparator_facts_expected", "boltz_float_comparator_facts_expected"]
+            "objectz_float_comparator_facts_expected", "boltz_float_comparator_facts_expected",
+            "objectz_time_representation_irrelevant", "objectz_eq_bolt_time_values"]
 TABLE = ["objectz_paging_facts_expected / boltz_paging_facts_expected (Generated/PagingFacts.lean: shape of setPaging, maxResults and the eviction test, regenerated from objectz/object_store.go and boltz/query_scanners.go)",
          "objectz_float_comparator_facts_expected / boltz_float_comparator_facts_expected (Generated/PagingFacts.lean: branch chain of the float64 sort comparators incl. the NaN branch, regenerated from objectz/object_store_sort.go and boltz/query_sort.go)"]
 
 
 def _f(case):
     f = case.split(" ")
-    return dict(rows=f[1], filter=f[2], sort=f[3], skip=f[4], limit=f[5], order=f[6], variant=f[7] if len(f) > 7 else "full")
+    return dict(rows=f[1], filter=f[2], sort=f[3], skip=f[4], limit=f[5], order=f[6], variant=f[7] if len(f) > 7 else "full",
+                reps=f[8] if len(f) > 8 else "-")
 
 
 def nontrivial(case, impl):
@@ -30,7 +32,8 @@ def nontrivial(case, impl):
         return None
     if c["sort"] == "-" and c["skip"] == "-" and c["limit"] == "-" and "null" not in c["filter"]:
         return None
-    return (c["rows"], c["filter"], c["sort"], c["skip"], c["limit"], c["variant"])
+    key = (c["rows"], c["filter"], c["sort"], c["skip"], c["limit"], c["variant"])
+    return key if c["reps"] == "-" else key + (c["reps"],)
 
 
 def describe(case, impl, model, spec):
@@ -40,12 +43,13 @@ def describe(case, impl, model, spec):
         return dict(p.split("=", 1) for p in (line or "").split("|") if "=" in p) or line
     return {"case": case, "rows": flow.split_rows(c["rows"]) or c["rows"], "filter": c["filter"], "sort": c["sort"],
             "skip": c["skip"], "limit": c["limit"], "object_iteration_order": c["order"], "object_store": c["variant"],
+            "time_value_representations": c["reps"],
             "impl": sec(impl), "model": sec(model), "spec": sec(spec)}
 
 
 def histogram(lines):
     h = {"rows": Counter(), "sort": Counter(), "skip": Counter(), "limit": Counter(), "filter": Counter(), "order": Counter(),
-         "object_store": Counter(), "nan_data": Counter()}
+         "object_store": Counter(), "nan_data": Counter(), "time_reps": Counter()}
     for l in lines:
         c = _f(l)
         n = len(flow.split_rows(c["rows"]))
@@ -56,6 +60,8 @@ def histogram(lines):
         h["filter"][c["filter"].split("~")[0].split(".")[0]] += 1
         h["order"][c["order"][:3]] += 1
         h["object_store"][c["variant"]] += 1
+        kinds = sorted({e.split(":")[1][:1] for e in c["reps"].split(",") if ":" in e})
+        h["time_reps"]["all UTC" if not kinds else "+".join({"z": "zones", "m": "monotonic"}.get(k, k) for k in kinds)] += 1
         h["nan_data"]["NaN float present" if "7ff8000000000001" in c["rows"] or "fff8000000000000" in c["rows"] else "no NaN"] += 1
     return {k: dict(sorted(v.items())) for k, v in h.items()}
 
@@ -72,6 +78,13 @@ def candidates(case):
         put(6, "fwd")
     if len(f) > 7 and f[7] != "full":
         put(7, "full")
+    if len(f) > 8 and f[8] != "-":
+        put(8, "-")
+        es = f[8].split(",")
+        for i in range(len(es)):
+            put(8, ",".join(es[:i] + es[i + 1:]) or "-")
+            if not es[i].endswith(":z1"):
+                put(8, ",".join(es[:i] + [es[i].split(":")[0] + ":z1"] + es[i + 1:]))
     for v in flow.filter_variants(f[2]):
         put(2, v)
     for v in flow.sort_variants(f[3]):
@@ -98,7 +111,9 @@ RULE = ("200 (quick) / 4000 (thorough) random collections of 0-7 objects over ti
         "object stores (all symbols / only id,s,i / no id symbol): filters nested with and/or/not to depth 3, filters on unknown symbols, set "
         "functions on non-set symbols, 0-9 sort fields with duplicates, id anywhere, unknown / set / AnyType / dotted sort fields; + 40/600 "
         "collections x 25/30 queries with NaN / +-Inf / -0 under the float64 sort key (all iteration orders); + 40/600 collections x 30 queries over keyword-like alias symbol names (as in C02) with every spelling of the sort "
-        "direction. Each case runs boltz QueryIds, "
+        "direction; + 60/600 collections of 2-6 objects x 25/30 queries sorted by the datetime symbol where several objects hold the SAME instant as "
+        "different time.Time values (UTC, three FixedZone pointers, time.Local, time.Now()-derived with monotonic reading; also the zero time), "
+        "every iteration order and paging boundary. Each case runs boltz QueryIds, "
         "objectz QueryEntities, and QueryEntitiesC twice on one query object. non-trivial = at least two objects match and a null test, sort field, "
         "skip or limit is present; distinct = (collection, filter, sort, skip, limit, object store)")
 
@@ -108,6 +123,7 @@ def run(ctx, replay_cases=None):
         "object symbols return the typed pointer of the object's field (objects 'hold the same field values' as the bolt rows: the harness builds both from one dataset)",
         "the biogo llrb tree behaves as a strictly sorted list with replace-on-equal Insert and DeleteMax = drop the last element",
         "object ids are distinct (hypothesis DistinctIds)",
+        "time.Time values: modelled as instant + *Location identity + optional monotonic reading with Before/After as in package time; two monotonic readings order like their instants (hypothesis MonoConsistent: true unless the wall clock is stepped between two time.Now() calls; the harness derives all readings from one clock reading)",
         "filters outside the modelled fragment are covered by objectz_eq_bolt_any_filter under the hypothesis TypedLocal (the node reads every symbol through the accessor of its declared type and IsNil), which is proved for the fragment only",
         "fewer than 2^63 objects",
         "the executable filter fragment is that of Query/Filter.lean (typed comparisons, = null, != null, and/or/not) over non-set symbols; set symbols are not implemented by objectz (OpenSetCursor panics by design) and are outside the property; set functions on non-set symbols are rejected by both parsers",
